@@ -9,6 +9,9 @@ pub mod c10;
 pub mod c11;
 pub mod c12;
 pub mod c16;
+pub mod c17;
+pub mod c18;
+pub mod c19;
 
 use crate::runner::Ctx;
 use serde_json::Value;
@@ -27,6 +30,9 @@ pub fn run(ctx: &mut Ctx, id: &str) -> bool {
         "C11" => c11::run(ctx),
         "C12" => c12::run(ctx),
         "C16" => c16::run(ctx),
+        "C17" => c17::run(ctx),
+        "C18" => c18::run(ctx),
+        "C19" => c19::run(ctx),
         _ => return false,
     }
     true
@@ -46,6 +52,9 @@ pub fn replay(ctx: &Ctx, id: &str, label: &str, case: Value) -> Result<(), Strin
         "C11" => c11::replay(ctx, label, case),
         "C12" => c12::replay(ctx, label, case),
         "C16" => c16::replay(ctx, label, case),
+        "C17" => c17::replay(ctx, label, case),
+        "C18" => c18::replay(ctx, label, case),
+        "C19" => c19::replay(ctx, label, case),
         _ => Err(format!("unknown property {}", id)),
     }
 }
